@@ -186,15 +186,17 @@ pub fn run_with_monitor(l: &mut Local, prop: &'static str, lines: &[(Vec<u8>, bo
     let mut f: Findings = Vec::new();
     let mut delivered = false;
     for (i, (line, decode)) in lines.iter().enumerate() {
-        let d0 = p.state();
         let (exp, m1) = asm::step(&m, line, *decode, subj::NOALLOC);
+        // the parser's Debug rendering is only needed where the no-trace clause applies
+        let need_state = !matches!(exp, asm::Expect::Incomplete | asm::Expect::Deliver { .. } | asm::Expect::RejectCapacity);
+        let d0 = if need_state { p.state() } else { String::new() };
         let (ea, ma) = asm::step(&m_alloc, line, *decode, false);
         let (en, mn) = asm::step(&m_noalloc, line, *decode, true);
         let capacity_zone = ea != en || ma != mn;
         m_alloc = ma;
         m_noalloc = mn;
         let out = p.parse(line, *decode);
-        let d1 = p.state();
+        let d1 = if need_state { p.state() } else { String::new() };
         l.outcome(if capacity_zone { crate::par::CAP_TOKEN } else { out.digest() });
         if i + 1 == lines.len() {
             l.class(out.class());
@@ -287,6 +289,148 @@ pub fn chain(prop: &'static str) -> Space {
                     let mut pl = vec![b'0'; len];
                     pl[0] = b'0' + (k % 10) as u8;
                     lines.push((sentence(n, k, id, &pl, 0), dec));
+                }
+            }
+            run_with_monitor(l, prop, &lines);
+        },
+    )
+}
+
+/// ASM-GROUPS: group sizes and sequence ids OUTSIDE the small alphabets: for n in {2..=12, 16, 100,
+/// 128, 200, 255} and 10 ids (absent, 0, 9, 10, 11, 99, 100, 128, 255, "007"): the in-order group, and
+/// every single deviation of it at every position j — duplicate of fragment j-1, fragment j skipped,
+/// wrong id at j, bad checksum at j, an unfragmented sentence before j, fragment j of a larger group —
+/// all judged step by step by the monitor.
+pub fn groups(prop: &'static str) -> Space {
+    let ns: Vec<u32> = vec![2, 3, 4, 5, 6, 7, 8, 9, 10, 11, 12, 16, 100, 128, 200, 255];
+    let ids: Vec<&'static [u8]> = vec![b"", b"0", b"9", b"10", b"11", b"99", b"100", b"128", b"255", b"007"];
+    // index space: (n, position j in 0..=n, deviation kind 0..7, id, decode)   (j = 0: no deviation)
+    // deviation positions: every position for n <= 16; around the decimal / binary boundaries and
+    // both ends for the large groups
+    let positions: Vec<Vec<u32>> = ns
+        .iter()
+        .map(|&n| {
+            if n <= 16 {
+                (1..=n).collect()
+            } else {
+                let mut v: Vec<u32> = [1, 2, 9, 10, 11, 99, 100, 101, 127, 128, 129, n - 1, n].into_iter().filter(|&j| j <= n).collect();
+                v.sort();
+                v.dedup();
+                v
+            }
+        })
+        .collect();
+    let mut starts = Vec::new();
+    let mut total = 0u64;
+    for pv in &positions {
+        starts.push(total);
+        total += (1 + pv.len() as u64 * 6) * ids.len() as u64 * 2;
+    }
+    Space::new(
+        "ASM-GROUPS",
+        "group sizes {2..12,16,100,128,200,255} x 10 sequence ids (absent,0,9,10,11,99,100,128,255,007) x (in-order group + every single deviation at every position (large groups: at 1,2,9-11,99-101,127-129,n-1,n): duplicate, skip, wrong id, bad checksum, interposed unfragmented sentence, fragment of a larger group) x decode",
+        total,
+        move |i, l| {
+            let ni = match starts.binary_search(&i) {
+                Ok(x) => x,
+                Err(x) => x - 1,
+            };
+            let n = ns[ni];
+            let mut r = Radix(i - starts[ni]);
+            let dec = r.take(2) == 1;
+            let id = ids[r.take(ids.len() as u64) as usize];
+            let dev = r.0; // 0 = none; else 1 + (j-1)*6 + kind
+            let (j, kind) = if dev == 0 { (0u32, 0u64) } else { (positions[ni][((dev - 1) / 6) as usize], (dev - 1) % 6) };
+            let other: &[u8] = if id == b"9" { b"8" } else { b"9" };
+            let tok = |k: u32| -> Vec<u8> {
+                vec![crate::spec::unarmor::armor_char((k % 64) as u8), crate::spec::unarmor::armor_char(((k / 64) % 64) as u8)]
+            };
+            let mut lines: Vec<(Vec<u8>, bool)> = Vec::new();
+            for k in 1..=n {
+                if k == j {
+                    match kind {
+                        0 => {
+                            // duplicate of the previous fragment (or of fragment 1 itself)
+                            let d = if k > 1 { k - 1 } else { 1 };
+                            lines.push((sentence(n, d, id, &tok(d), 0), dec));
+                        }
+                        1 => continue, // fragment j lost
+                        2 => {
+                            lines.push((sentence(n, k, other, &tok(k), 0), dec));
+                            continue;
+                        }
+                        3 => {
+                            let m = Mk::new(n, k, id, &tok(k), 0);
+                            let wrong = format!("*{:02X}", m.xor() ^ 0x21);
+                            lines.push((m.render_with(wrong.as_bytes()), dec));
+                        }
+                        4 => lines.push((sentence(1, 1, id, &type1_payload(), 0), dec)),
+                        _ => {
+                            // the same fragment number, declared as part of a larger group: still a
+                            // direct continuation (the count is not part of the sequencing rule)
+                            lines.push((sentence((n + 1).min(255), k, id, &tok(k), 0), dec));
+                            continue;
+                        }
+                    }
+                }
+                lines.push((sentence(n, k, id, &tok(k), 0), dec));
+            }
+            run_with_monitor(l, prop, &lines);
+        },
+    )
+}
+
+/// ASM-SOAK: long cyclic scripts (600 lines) mixing complete groups, abandoned groups, unfragmented
+/// sentences and every kind of rejected line, judged step by step by the monitor: behaviour must not
+/// depend on how many lines, groups or errors the parser has already seen.
+pub fn soak(prop: &'static str) -> Space {
+    Space::new(
+        "ASM-SOAK",
+        "8 cyclic scripts x 600 lines (complete / abandoned groups, unfragmented sentences, checksum / grammar / sequencing / decode errors) x decode phase",
+        8 * 2,
+        move |i, l| {
+            let script = i / 2;
+            let phase = i % 2 == 1;
+            let t1 = type1_payload();
+            let mut lines: Vec<(Vec<u8>, bool)> = Vec::new();
+            let mut g = 0u32;
+            while lines.len() < 600 {
+                g += 1;
+                let id_s = format!("{}", g % 10);
+                let id: &[u8] = if script % 2 == 0 { b"" } else { id_s.as_bytes() };
+                let dec = phase ^ (g % 3 == 0);
+                let n = 2 + (g + script as u32) % 4;
+                match (g + script as u32) % 8 {
+                    0 | 1 | 2 => {
+                        // complete group
+                        for k in 1..=n {
+                            lines.push((sentence(n, k, id, format!("g{}k{}", g % 10, k).replace('g', "7").replace('k', "8").as_bytes(), 0), dec));
+                        }
+                    }
+                    3 => {
+                        // abandoned group
+                        lines.push((sentence(n + 1, 1, id, b"abc", 0), dec));
+                        lines.push((sentence(n + 1, 2, id, b"abd", 0), dec));
+                    }
+                    4 => lines.push((sentence(1, 1, b"", &t1, 0), dec)),
+                    5 => {
+                        let m = Mk::new(2, 2, id, b"zz1", 0);
+                        let wrong = format!("*{:02X}", m.xor() ^ 0x40);
+                        lines.push((m.render_with(wrong.as_bytes()), dec));
+                        lines.push((b"!AIVDM,nonsense".to_vec(), dec));
+                    }
+                    6 => {
+                        // orphan continuation, then a decodable 2-fragment group with decoding on
+                        lines.push((sentence(3, 3, id, b"orf", 0), dec));
+                        lines.push((sentence(2, 1, id, &t1[..13], 0), true));
+                        lines.push((sentence(2, 2, id, &t1[13..], 0), true));
+                    }
+                    _ => {
+                        // undecodable group with decoding on (decode failure closes the group)
+                        lines.push((sentence(2, 1, id, b"000", 0), true));
+                        lines.push((sentence(2, 2, id, b"000", 0), true));
+                        lines.push((sentence(3, 3, id, b"001", 0), false));
+                    }
                 }
             }
             run_with_monitor(l, prop, &lines);
@@ -747,7 +891,8 @@ fn judge_split(l: &mut Local, prop: &str, c: &SplitCase, id: &[u8], prior: u64, 
             }
         }
         let piece = &c.payload[bounds[j]..bounds[j + 1]];
-        let fill = if j + 1 == m { c.fill } else { 0 };
+        let nonfinal_fill = if noise % 2 == 1 && prior % 2 == 1 { 5 } else { 0 };
+        let fill = if j + 1 == m { c.fill } else { nonfinal_fill };
         let mut mk = Mk::new(m as u32, (j + 1) as u32, id, piece, fill);
         mk.chan = if j % 2 == 0 { b"A".to_vec() } else { b"B".to_vec() };
         let line = mk.render();
@@ -761,7 +906,7 @@ fn judge_split(l: &mut Local, prop: &str, c: &SplitCase, id: &[u8], prior: u64, 
         if !last {
             match &o {
                 Out::Incomplete(s) => {
-                    let own = s.data == piece && s.n as usize == m && s.k as usize == j + 1 && s.fill == 0 && s.msg.is_none()
+                    let own = s.data == piece && s.n as usize == m && s.k as usize == j + 1 && s.fill == nonfinal_fill && s.msg.is_none()
                         && s.chan == Some(mk.chan[0] as char)
                         && s.id == recognise(&line).and_then(|q| q.id);
                     if !own {
@@ -834,6 +979,8 @@ fn context_count() -> u64 {
     SPLIT_IDS.len() as u64 * 5 * 5 * 2
 }
 
+/// (rest, id, prior history, noise pattern, decode). The noise pattern also selects the fill count
+/// carried by the NON-final fragments (0, or 5 for odd patterns): it must be ignored.
 fn with_context(i: u64) -> (u64, &'static [u8], u64, u64, bool) {
     let mut r = Radix(i);
     let id = SPLIT_IDS[r.take(SPLIT_IDS.len() as u64) as usize];
@@ -980,6 +1127,8 @@ pub fn c05(tier: Tier) -> Vec<Space> {
         split_compositions("C05"),
         split_opaque("C05"),
         chain("C05"),
+        groups("C05"),
+        soak("C05"),
     ];
     if tier == Tier::Thorough {
         v.push(hist_space("C05", 5)); // directly continuing fragments must be accepted
@@ -988,7 +1137,12 @@ pub fn c05(tier: Tier) -> Vec<Space> {
 }
 
 pub fn c06(tier: Tier) -> Vec<Space> {
-    vec![hist_space("C06", if tier == Tier::Quick { 4 } else { 6 }), chain("C06")]
+    vec![
+        hist_space("C06", if tier == Tier::Quick { 4 } else { 6 }),
+        chain("C06"),
+        groups("C06"),
+        soak("C06"),
+    ]
 }
 
 pub fn c17(tier: Tier) -> Vec<Space> {
@@ -996,5 +1150,7 @@ pub fn c17(tier: Tier) -> Vec<Space> {
         hist_space("C17", if tier == Tier::Quick { 4 } else { 5 }),
         two_parsers("C17"),
         chain("C17"),
+        groups("C17"),
+        soak("C17"),
     ]
 }
